@@ -3,6 +3,8 @@ package pokertable
 // C07 — table status follows its life cycle; one hand at a time; hands are numbered.
 
 import (
+	"time"
+
 	"github.com/weedbox/pokertable/internal/verifrt"
 	"github.com/weedbox/pokertable/seat_manager"
 )
@@ -133,5 +135,38 @@ func VH_C07_Reset() {
 	}
 	verifrt.Assert(st.GameCount == gc, "continue does not touch the game count")
 	verifrt.Assert(st.Status == TableStateStatus_TableGameStandby || st.Status == TableStateStatus_TablePausing, "after settlement the table is standby or pausing")
+	verifrt.Reach("end")
+}
+
+// VH_C07_OpenRetry: the blind level changes while tableGameOpen sleeps between
+// two attempts (UpdateBlind takes no lock): the retry must look at the level in
+// force then. The first attempt fails because the position computation is refused.
+func VH_C07_OpenRetry() {
+	n := verifrt.Cfg("n")
+	M := verifrt.Cfg("M")
+	w, _ := vhStandbyWorld(n, M)
+	te := w.te
+	st := te.table.State
+	verifrt.Assume(st.Status == TableStateStatus_TableGameStandby && !te.isReleased)
+	verifrt.Assume(st.BlindState.IsSet() && !st.BlindState.IsBreaking())
+	verifrt.Assume(verifrt.BoolI("sm.refuse", 0)) // first attempt refused -> retry loop
+	gc0 := st.GameCount
+	lv, a, d, sb, bb := verifrt.IntRange("nb.level", -1, 2), verifrt.Int64("nb.ante"), verifrt.Int64("nb.dealer"), verifrt.Int64("nb.sb"), verifrt.Int64("nb.bb")
+	verifrt.DuringSleep(1, 3*time.Second, func() {
+		te.UpdateBlind(lv, a, d, sb, bb)
+	})
+	err := te.tableGameOpen()
+	opened := len(w.bk.calls) > 0
+	bs := te.table.State.BlindState
+	if opened {
+		verifrt.Reach("opened on retry")
+		verifrt.Assert(err == nil && te.table.State.GameCount == gc0+1, "the retry opens one hand")
+		verifrt.Assert(bs.Level != -1, "no hand opens while the blind level is a break (level changed before the retry)")
+		verifrt.Assert(bs.IsSet(), "no hand opens before blinds are set (level changed before the retry)")
+		verifrt.Assert(w.bk.calls[0].opts.Ante == a && w.bk.calls[0].opts.Blind.SB == sb && w.bk.calls[0].opts.Blind.BB == bb, "the hand is played at the blinds in force when it opened")
+	} else {
+		verifrt.Reach("not opened")
+		verifrt.Assert(te.table.State.GameCount == gc0 && te.table.State.Status == TableStateStatus_TableGameStandby, "no hand opened: status and count stay")
+	}
 	verifrt.Reach("end")
 }
